@@ -113,19 +113,23 @@ claim("C16", "Lean 4 proof of history independence of the session model + differ
       "inference reads exactly as reset_bounds() before it. That the RERUN reproduces the first run is NOT a theorem and is false in two listed classes: "
       "known findings D11 (contradictory first-order data) and D14 (quantifier whose instance set grows), replayed on every run and matched only when the "
       "Lean model reproduces the same history dependence on that program (model_reproduces); oracles: rerun comparison, reset oracle, query-trace oracle.", "DESIGN.md §6 C16")
-claim("C02", "Lean 4 proof that every first-order step is sound w.r.t. every model of the ground instantiation (induction over call sequences, both join branches) + ground-instance differential oracle",
+claim("C02", "Lean 4 proof that every first-order step is sound w.r.t. every model of the ground instantiation AND never tighter than any assignment closed under the ground steps, in particular the propositional engine's fixpoint on the ground instantiation (induction over call sequences, both join branches) + ground-instance differential oracle",
       "Theorems C02_sound_call / C02_sound / C02_sound_infer (for every quantifier-free first-order KB, weights >= 0, alpha <= 1: any interpretation "
       "v : formula x grounding -> [0,1] that satisfies the truth-function equation of every formula at every grounding and lies inside every stored "
       "row AND inside the world default of every row that is not stored, still does so after any node-level call incl. index restrictions, any pass, "
       "any infer; covers the homogeneous branch and the folded outer join, duplicate merging, per-grounding contradiction filtering), "
-      "C02_no_contradiction / C02_no_model_contradiction_infer (a consistent ground theory is never driven to a contradiction), C02_no_leak / "
-      "C02_no_leak_reads (a call writes only its own / its operands' tables, and what every other grounding reads is unchanged: no leak between "
-      "groundings), C02_arity (well-shaped tables stay well-shaped). Tied to /repo: the same theory is instantiated at every tuple as a propositional "
-      "KB inside the implementation and run to convergence; every stored first-order bound must contain the ground fixpoint's; tables compared with "
-      "the first-order model.",
-      NOTE_COMMON + " 'Never tighter than the ground fixpoint' is established by the soundness theorem for every MODEL of the ground theory (hence for "
-      "the hull of all models) and checked against the implementation's own ground fixpoint by the oracle; it is not separately stated as a "
-      "lattice-theoretic theorem about the ground engine's least fixpoint.", "DESIGN.md §6 C02")
+      "C02_never_tighter_call / C02_never_tighter / C02_never_tighter_infer (the interval generalisation: for ANY ground bound assignment G that no "
+      "un-arrested ground step tightens -- GClosed -- 'G is at least as tight as every stored row and as the world default of every absent row' is "
+      "preserved by every call, pass and infer), C02_closed_iff_ground (GClosed is exactly post-fixpoint-ness under the propositional engine's steps "
+      "on groundKB, the ground instantiation) and C02_never_tighter_than_ground_fixpoint (hence: nothing first-order inference stores or returns is "
+      "tighter than the arrest-free fixpoint the propositional engine of C01-C07 reaches on the ground instances); C02_point_is_closed (subsumes "
+      "point soundness), C02_no_contradiction / C02_no_model_contradiction_infer (a consistent ground theory is never driven to a contradiction), "
+      "C02_no_leak / C02_no_leak_reads (a call writes only its own / its operands' tables, and what every other grounding reads is unchanged: no leak "
+      "between groundings), C02_arity (well-shaped tables stay well-shaped). Tied to /repo: the same theory is instantiated at every tuple as a "
+      "propositional KB inside the implementation and run to convergence; every stored first-order bound must contain the ground fixpoint's; tables "
+      "compared with the first-order model.",
+      NOTE_COMMON + " The 'never tighter' theorem is stated for arrest-free ground fixpoints (consistent ground theories, where no contradiction "
+      "filter fires); for contradictory components the oracle compares only instances not connected to a contradiction.", "DESIGN.md §6 C02, §11.7")
 claim("C11", "Lean 4 closed forms of quantifier upward aggregation (per group, engine level) + per-call differential oracle",
       "Theorems C11_qUp_forall / _exists (the activation is the Lukasiewicz conjunction / disjunction of the instance bounds), C11_forall_upper_unit / "
       "C11_exists_lower_unit / C11_fully_grounded (which bound moves), C11_positives_never_prove / C11_negatives_never_refute / "
